@@ -10,7 +10,10 @@ import hashlib
 import json
 import multiprocessing
 import os
+import pickle
 import random
+import select
+import signal
 import subprocess
 import sys
 import time
@@ -122,28 +125,113 @@ _TIER = None
 _SEED = None
 
 
-def _worker(chunk):
-  faulthandler.dump_traceback_later(600, exit=True)
-  out = []
-  try:
-    for idx in chunk:
-      rs = run_seed(_SEED, _CHECK.prop, idx)
-      rng = random.Random(rs)
-      t0 = time.time()
+ISOLATE = os.environ.get('VERIF_ISOLATE', '1') != '0'
+
+
+_IN_CHILD = False
+
+
+def in_pristine_child(fn):
+  """Runs fn() in a forked child of this (pristine) process and returns its pickled result.
+
+  The calling process never executes a plan itself, so whatever the code under
+  test keeps in module-level state (caches, class attributes, global RNGs) is
+  the freshly imported state for every single run: one run cannot influence the
+  next, results do not depend on which worker executed what before, and an
+  in-process run is equivalent to the fresh-interpreter replay.
+  """
+  r, w = os.pipe()
+  pid = os.fork()
+  if pid == 0:
+    code = 0
+    try:
+      os.close(r)
+      global _IN_CHILD
+      if not _IN_CHILD:
+        # (a nested child inherits the armed state without its watchdog thread; arming again would
+        # block forever - its parent's select() timeout bounds it instead)
+        faulthandler.dump_traceback_later(600, exit=True)
+      _IN_CHILD = True
       try:
-        plan = _CHECK.gen(rng, idx, _TIER)
-        res = _CHECK.run(plan)
-        out.append({
-            'idx': idx, 'plan': (getattr(res, 'pinned_plan', None) or plan) if (res.violations or idx < 3) else None,
-            'violations': res.violations, 'stats': res.stats, 'hashes': res.hashes,
-            'nontrivial': res.nontrivial, 'evaluations': res.evaluations,
-            'sim_s': res.sim_s, 'digest': res.digest, 'sample': res.sample if idx < 4 else None,
-            'wall': time.time() - t0,
-        })
+        payload = ('ok', fn())
+      except BaseException:  # pylint: disable=broad-except
+        payload = ('exc', traceback.format_exc())
+      try:
+        data = pickle.dumps(payload)
       except Exception:  # pylint: disable=broad-except
-        out.append({'idx': idx, 'harness_error': traceback.format_exc()})
+        data = pickle.dumps(('exc', 'result not picklable: ' + traceback.format_exc()))
+      with os.fdopen(w, 'wb') as f:
+        f.write(data)
+    except BaseException:  # pylint: disable=broad-except
+      code = 3
+    finally:
+      os._exit(code)  # pylint: disable=protected-access
+  os.close(w)
+  chunks = []
+  deadline = time.time() + 700
+  with os.fdopen(r, 'rb', buffering=0) as f:
+    while True:
+      ready, _, _ = select.select([f], [], [], max(0.0, deadline - time.time()))
+      if not ready:
+        os.kill(pid, signal.SIGKILL)  # stuck child: bounded by wall clock, reported as a harness error
+        break
+      b = f.read(1 << 20)
+      if not b:
+        break
+      chunks.append(b)
+  os.waitpid(pid, 0)
+  data = b''.join(chunks)
+  if not data:
+    return ('exc', 'child died without a result (crash or 600 s timeout)')
+  return pickle.loads(data)
+
+
+def _one_run(idx):
+  rs = run_seed(_SEED, _CHECK.prop, idx)
+  rng = random.Random(rs)
+  t0 = time.time()
+  plan = _CHECK.gen(rng, idx, _TIER)
+  res = _CHECK.run(plan)
+  return {
+      'idx': idx, 'plan': (getattr(res, 'pinned_plan', None) or plan) if (res.violations or idx < 3) else None,
+      'violations': res.violations, 'stats': res.stats, 'hashes': res.hashes,
+      'nontrivial': res.nontrivial, 'evaluations': res.evaluations,
+      'sim_s': res.sim_s, 'digest': res.digest, 'sample': res.sample if idx < 4 else None,
+      'wall': time.time() - t0,
+  }
+
+
+def _worker(chunk):
+  # (no faulthandler watchdog here when runs are isolated: a forked child would inherit its armed state
+  # without its thread and block forever when arming its own)
+  if not ISOLATE:
+    faulthandler.dump_traceback_later(900, exit=True)
+  out = []
+
+  def run_all():
+    res = []
+    for idx in chunk:
+      try:
+        res.append(_one_run(idx))
+      except Exception:  # pylint: disable=broad-except
+        res.append({'idx': idx, 'harness_error': traceback.format_exc()})
+    return res
+
+  try:
+    if ISOLATE:
+      # One pristine child per chunk: module-level state of the code under test starts freshly
+      # imported for every chunk, so a run can only be influenced by the earlier runs of ITS chunk
+      # (a fixed list) - never by which worker happened to execute what before.
+      status, val = in_pristine_child(run_all)
+      if status == 'ok':
+        out = val
+      else:
+        out = [{'idx': idx, 'harness_error': val} for idx in chunk]
+    else:
+      out = run_all()
   finally:
-    faulthandler.cancel_dump_traceback_later()
+    if not ISOLATE:
+      faulthandler.cancel_dump_traceback_later()
   return out
 
 
@@ -155,11 +243,36 @@ def _same(viol, target):
   return viol['clause'] == target['clause'] and viol['sig'] == target['sig']
 
 
-def reproduces(check, plan, target):
-  try:
-    res = check.run(plan)
-  except Exception:  # pylint: disable=broad-except
-    return None
+class _ResView:
+  """What the parent needs of a Result computed in a child."""
+
+  def __init__(self, d):
+    self.__dict__.update(d)
+
+
+def _run_plan_view(check, plan, context=()):
+  for p in context:
+    # plans that ran earlier in the same process; only their side effects on the process matter
+    try:
+      check.run(p)
+    except Exception:  # pylint: disable=broad-except
+      pass
+  res = check.run(plan)
+  return {'violations': res.violations, 'digest': res.digest,
+          'pinned_plan': getattr(res, 'pinned_plan', None)}
+
+
+def reproduces(check, plan, target, context=()):
+  if ISOLATE or context:
+    status, val = in_pristine_child(lambda: _run_plan_view(check, plan, context))
+    if status != 'ok':
+      return None
+    res = _ResView(val)
+  else:
+    try:
+      res = check.run(plan)
+    except Exception:  # pylint: disable=broad-except
+      return None
   for v in res.violations:
     if _same(v, target):
       return res
@@ -210,7 +323,7 @@ def minimise(check, plan, target, budget_runs=150, budget_s=90):
 
 def replay_file(check, path):
   doc = json.load(open(path))
-  res = reproduces(check, doc['plan'], doc['violation'])
+  res = reproduces(check, doc['plan'], doc['violation'], context=doc.get('context_plans') or ())
   if res is None:
     print(f'REPLAY-MISMATCH property={doc["property"]} replay={path}: violation did not reproduce')
     return 2
@@ -309,6 +422,7 @@ def main(check, tier, argv=()):
       agg['viol'][k]['count'] += 1
 
   exit_code = 0
+  confirmed = False  # at least one violation minimised, replayed in a fresh interpreter and reported
   if agg['harness_errors']:
     idx, tb = agg['harness_errors'][0]
     print(f'HARNESS-ERROR: {len(agg["harness_errors"])} runs raised in the harness; first (run {idx}):')
@@ -344,6 +458,26 @@ def main(check, tier, argv=()):
     if res is None:
       small = plan
       res = reproduces(check, small, v)
+    context = []
+    if res is None:
+      # Not reproducible on its own: it may depend on what ran earlier in the same process (its chunk).
+      # That is a property of the code under test (process-level state leaking from one study into
+      # another), and it is replayable: the earlier plans of the chunk become the replay's context.
+      start = (ent['idx'] // check.chunk) * check.chunk
+      context = [check.gen(random.Random(run_seed(seed, check.prop, j)), j, tier) for j in range(start, ent['idx'])]
+      res = reproduces(check, plan, v, context=context) if context else None
+      if res is not None:
+        # shrink the context: drop plans while the violation persists
+        budget_t = time.time() + 60
+        i = 0
+        while i < len(context) and time.time() < budget_t:
+          cand = context[:i] + context[i + 1:]
+          r2 = reproduces(check, plan, v, context=cand) if cand else None
+          if r2 is not None:
+            context, res = cand, r2
+          else:
+            i += 1
+        small = plan
     if res is None:
       print(f'HARNESS-ERROR: violation {v["clause"]} of run {ent["idx"]} did not reproduce in-process: {v["detail"]}')
       exit_code = 2
@@ -357,6 +491,10 @@ def main(check, tier, argv=()):
         'digest': res.digest, 'minimise_runs': nmin, 'occurrences': ent['count'],
         'original_ops': len(plan.get('ops', [])), 'minimised_ops': len(small.get('ops', [])),
     }
+    if context:
+      doc['context_plans'] = context
+      doc['note'] = ('the violation needs the context plans to have run earlier in the same process: '
+                     'process-level state of the code under test leaks from one study into another')
     with open(path, 'w') as f:
       json.dump(doc, f, indent=1, sort_keys=True, default=repr)
     # Replay in a fresh interpreter before reporting.
@@ -369,8 +507,9 @@ def main(check, tier, argv=()):
       print(f'VIOLATION property={check.prop} replay={path}')
       print(f'  clause={vv["clause"]} sig={json.dumps(vv["sig"], sort_keys=True)} occurrences={ent["count"]}')
       print(f'  detail={vv["detail"]}')
-      if exit_code == 0:
-        exit_code = 1
+      if context:
+        print(f'  context={len(context)} earlier run(s) in the same process are part of the replay (state leaks between studies)')
+      confirmed = True
     else:
       print(f'HARNESS-ERROR: replay of {path} in a fresh interpreter did not reproduce (rc={p.returncode})')
       print(p.stdout[-2000:])
@@ -426,6 +565,10 @@ def main(check, tier, argv=()):
       f'{check.prop} {tier}: runs={agg["runs"]} evaluations={agg["evaluations"]} '
       f'distinct_nontrivial={len(agg["hashes_nt"])} violations={unlisted} '
       f'known={len(known_hits)} wall={wall:.1f}s digest={coverage["run_digest"][:16]}')
+  if confirmed:
+    # A confirmed, replayable violation decides the outcome; violations that could not be reproduced
+    # (e.g. the code under test became non-deterministic) stay listed above as HARNESS-ERROR lines.
+    exit_code = 1
   if agg['runs'] == 0 and exit_code == 0:
     print('HARNESS-ERROR: no run completed')
     exit_code = 2
